@@ -254,8 +254,8 @@ class ByCountProfilerMixin:
                 self.enable_by_count()
                 try:
                     item = g.send(input_)
-                except StopIteration:
-                    return
+                except StopIteration as e:
+                    return e.value
                 finally:
                     self.disable_by_count()
                 input_ = (yield item)
